@@ -6,12 +6,14 @@ Imports no Mathlib (it is linked as a native executable).
 -/
 import GmVerif.Drv.Sym
 import GmVerif.Drv.SM2
+import GmVerif.Drv.SM9Impl
+import GmVerif.Drv.SM9Spec
 open GmVerif
 
 def step (spec : Bool) (line : String) : String :=
   let toks := (line.trimAscii.toString.splitOn " ").filter (· ≠ "")
-  let r := if spec then (Drv.Sym.specStep toks <|> Drv.SM2.specStep toks)
-           else (Drv.Sym.implStep toks <|> Drv.SM2.implStep toks)
+  let r := if spec then (Drv.Sym.specStep toks <|> Drv.SM2.specStep toks <|> Drv.SM9Spec.specStep toks)
+           else (Drv.Sym.implStep toks <|> Drv.SM2.implStep toks <|> Drv.SM9Impl.implStep toks)
   r.getD "BADOP"
 
 partial def loop (spec : Bool) (h out : IO.FS.Stream) : IO Unit := do
